@@ -226,7 +226,7 @@ def clStart (s : Nat) : List (Act RT) :=
     { name := "cl.start.end", guard := fun rt => atPc rt (.startAt s) && (nextValid rt s).isNone,
       upd := fun rt => setPc { rt with state := .running } .next, out := fun _ => ["API start -> ok"] },
     { name := "cl.start.sto", guard := fun rt => atPc rt (.stoStart s),
-      upd := fun rt => setPc (modS rt s fun st => { st with sto := { st.sto with state := .running, run := st.sto.run + 1, nappend := 0, failed := false, log := [], base := st.sinkCh.total, appended := st.sinkCh.total, ncommit := 0, dropped := false, clean := decide (st.sinkCh.idx.getD 0 0 = st.sinkCh.total) } })
+      upd := fun rt => setPc (modS rt s fun st => { st with sto := { st.sto with state := .running, run := st.sto.run + 1, nappend := 0, failed := false, log := [], base := st.sinkCh.total, appended := st.sinkCh.total, ncommit := 0, dropped := false, monFresh := st.monReg && decide (st.sinkCh.idx.getD 1 0 = st.sinkCh.total), clean := decide (st.sinkCh.idx.getD 0 0 = st.sinkCh.total) } })
                              (.accLock s true 0),
       out := fun rt => [s!"DRV {stoDev s} start run={(getS rt s).sto.run + 1} -> running"] },
     { name := "cl.start.snk", guard := fun rt => atPc rt (.createSnk s),
@@ -243,7 +243,7 @@ def clStart (s : Nat) : List (Act RT) :=
       upd := fun rt => setPc (modS rt s fun st => { st with cam := { st.cam with state := .running, run := st.cam.run + 1, frame := 0, ncalls := 0, drvStarts := st.cam.drvStarts + 1, failed := false }, srcStopping := false, srcRunning := true }) (.createSrc s),
       out := fun rt => [s!"DRV {camDev s} start run={(getS rt s).cam.run + 1} -> ok"] },
     { name := "cl.start.src", guard := fun rt => atPc rt (.createSrc s),
-      upd := fun rt => { (modS rt s fun st => { st with tidSrc := rt.nthreads, src := {} }) with
+      upd := fun rt => { (modS rt s fun st => { st with tidSrc := rt.nthreads, src := {}, monFlushed := false }) with
                           nthreads := rt.nthreads + 1, client := { rt.client with pc := .startAt (s + 1) } } }
   ]
 
@@ -321,7 +321,8 @@ def clientFlush (s r : Nat) : List (Act RT) :=
                           client := { rt.client with pc := .flushAfterRead s r, flushLen := outLen (flushRead rt s r).2 } } },
     { name := "cl.flush.read.notify", guard := fun rt => atPc rt (.flushRmapNotify s r), upd := fun rt => setPc (notifyIf rt s r) (.flushAfterRead s r) },
     { name := "cl.flush.more", guard := fun rt => atPc rt (.flushAfterRead s r) && decide (rt.client.flushLen > 0), upd := fun rt => setPc rt (.flushUnmapLock s r false) },
-    { name := "cl.flush.empty", guard := fun rt => atPc rt (.flushAfterRead s r) && decide (rt.client.flushLen = 0), upd := fun rt => setPc rt (.flushed s r) },
+    { name := "cl.flush.empty", guard := fun rt => atPc rt (.flushAfterRead s r) && decide (rt.client.flushLen = 0),
+      upd := fun rt => setPc (modS rt s fun st => { st with monFlushed := st.monFlushed || decide (r = 1) }) (.flushed s r) },
     { name := "cl.flush.unmap", guard := fun rt => atPc rt (.flushUnmapLock s r false) && lockOk rt s r,
       upd := fun rt => setPc (modS rt s fun st => setReaderChan st r (chanOp (readerChan st r) (.runmap (readerIdx r) rt.client.flushLen)).1) (.flushUnmapNotify s r false) },
     { name := "cl.flush.preunmap", guard := fun rt => atPc rt (.flushUnmapLock s r true) && lockOk rt s r,
